@@ -142,6 +142,9 @@ CATALOGUE = [
     m('c09-keep-ge', 'C09', 'keep', B, [("            ict = upper[k] - lower[k] + 1\n            if ict > 0:", "            if upper[k] >= lower[k]:")]),
     # ------------------------------------------------------------------ C10
     m('c10-early-return-all-true', 'C10', 'break', B, [("            outmask[xsort] = maskwork\n            return (sset, outmask)", "            return (sset, outmask)")], 'C10.MASK-EXITS'),
+    m('c08-everyn-unbounded', 'C08', 'break', B, [("                    xspot = np.minimum(int(nx/(nbkpts-1)) * np.arange(nbkpts, dtype='i4'),\n                                       nx-1)",
+                                                   "                    xspot = int(nx/(nbkpts-1)) * np.arange(nbkpts, dtype='i4')")], 'C08.EVERYN'),
+    m('c09-maskpoints-float-indices', 'C09', 'break', B, [("        hmm = err[uniq(err//self.npoly)]//self.npoly", "        hmm = err[uniq(err/self.npoly)]/self.npoly")], 'C09.INT-SINK'),
     m('c10-no-unsort', 'C10', 'break', B, [("    outmask[xsort] = maskwork\n    temp = yfit", "    outmask = maskwork\n    temp = yfit")], 'C10.UNSORT'),
     m('c10-double-gather', 'C10', 'break', B, [("    outmask[xsort] = maskwork\n    temp = yfit", "    outmask[xsort] = maskwork[xsort]\n    temp = yfit")], 'C10.UNSORT'),
     m('c10-fit-unmasked', 'C10', 'break', B, [("error, yfit = sset.fit(xwork, ywork, invwork*maskwork,", "error, yfit = sset.fit(xwork, ywork, invwork,")], 'C10.WEIGHT-MASK'),
